@@ -231,6 +231,41 @@ func runC07(c *Ctx) {
 	old := vm.MemoryBudget
 	defer func() { vm.MemoryBudget = old }()
 	budgets := []int{8, 20, 50, 50, 200, 1000, old}
+	// the package-level budget changes BETWEEN runs of one reused VM (lowered, then raised again): every run must
+	// behave like the same run on a fresh VM under the budget in force at that moment (seed c07_7: a per-VM limit
+	// that was only initialised on first use kept the budget of the VM's first run)
+	{
+		nchg := 0
+		for _, hr := range allocating {
+			vm.MemoryBudget = old
+			fo := RunReal(&vm.VM{}, hr.Case.B.Program, envVal(hr.Case), hr.Case.Env)
+			if fo.Err != nil || fo.Memory < 2 {
+				continue
+			}
+			reused := &vm.VM{}
+			for step, budget := range []int{old, fo.Memory, old, 1, fo.Memory + 1, fo.Memory, old} {
+				vm.MemoryBudget = budget
+				a := RunReal(reused, hr.Case.B.Program, envVal(hr.Case), hr.Case.Env)
+				b := RunReal(&vm.VM{}, hr.Case.B.Program, envVal(hr.Case), hr.Case.Env)
+				r.Count("c07:budget-change-runs", 1)
+				if (a.Err == nil) != (b.Err == nil) || a.Class != b.Class || (a.Err == nil && valSx(a.Val).String() != valSx(b.Val).String()) {
+					r.Violate(Violation{What: "after vm.MemoryBudget changed between two runs, a reused VM behaves unlike a fresh one", Key: "c07:budget-changed-between-runs",
+						Input:  map[string]string{"source": hr.Case.Src, "step": fmt.Sprint(step), "budget": fmt.Sprint(budget), "needs": fmt.Sprint(fo.Memory)},
+						Expect: "fresh VM: " + c07OutcomeText(b), Got: "reused VM: " + c07OutcomeText(a)})
+					break
+				}
+			}
+			nchg++
+			if nchg >= 12 {
+				break
+			}
+		}
+		vm.MemoryBudget = old
+		if nchg == 0 {
+			r.Mismatch("generator", "c07 budget-change histories", "0", "no allocating program succeeded under the default budget")
+			return
+		}
+	}
 	found := false
 	type job struct {
 		h      []*histRun
@@ -441,3 +476,10 @@ func replayC07(c *Ctx) {
 }
 
 func init() { props["C07"] = runC07 }
+
+func c07OutcomeText(o *RunOutcome) string {
+	if o.Err != nil {
+		return "error[" + o.Class + "]"
+	}
+	return "ok " + valSx(o.Val).String()
+}
